@@ -226,6 +226,48 @@ def indexed_string_is_const_table(P, fn, t):
     return False
 
 
+def quoted_bounds_problem(P, fn, bounds):
+    """The grammar obligation 'first and last byte are ASCII quotes' justifies exactly start = 1 and end = str::len() - 1."""
+    got = {nm: op for nm, op, incl in bounds if not incl}
+    if set(got) != {"start", "end"}:
+        return "expected an exclusive range with both bounds"
+    st, en = got["start"], got["end"]
+    if not (st[0] == "k" and isinstance(st[1], dict) and st[1].get("val") == 1):
+        ol = op_local(st)
+        ds = defs_of(fn, ol[0]) if ol else []
+        if not (len(ds) == 1 and ds[0][0] == "a" and ds[0][3]["k"] == "use" and ds[0][3]["o"][0] == "k" and ds[0][3]["o"][1].get("val") == 1):
+            return "start bound is not the constant 1"
+    ol = op_local(en)
+    cur = ol[0] if ol else None
+    for _ in range(6):
+        if cur is None:
+            break
+        ds = defs_of(fn, cur)
+        if len(ds) != 1 or ds[0][0] != "a":
+            break
+        rv = ds[0][3]
+        if rv["k"] == "use" and op_local(rv["o"]):
+            cur = op_local(rv["o"])[0]
+            continue
+        if rv["k"] == "bin" and rv["op"].replace("WithOverflow", "") == "Sub" and rv["b"][0] == "k" and rv["b"][1].get("val") == 1:
+            la = op_local(rv["a"])
+            c2 = la[0] if la else None
+            for _ in range(4):
+                d2 = defs_of(fn, c2) if c2 is not None else []
+                if len(d2) == 1 and d2[0][0] == "a" and d2[0][3]["k"] == "use" and op_local(d2[0][3]["o"]):
+                    c2 = op_local(d2[0][3]["o"])[0]
+                    continue
+                if len(d2) == 1 and d2[0][0] == "c":
+                    f = d2[0][3].get("f")
+                    if f and f["id"].rsplit("::", 1)[1] == "len" and ("str" in f["name"] or "String" in f["name"]):
+                        return None
+                    return "end bound is `%s(..) - 1`, not the byte length minus one" % (f["name"] if f else "?")
+                break
+            return "end bound does not come from str::len()"
+        break
+    return "end bound is not `len() - 1`"
+
+
 def run(P, rep, fns, ledger=None, rule="R-STRSLICE"):
     ledger = ledger or {}
     n = 0
@@ -262,6 +304,12 @@ def run(P, rep, fns, ledger=None, rule="R-STRSLICE"):
                     problems.append("%s bound is not provably on a character boundary (%s)" % (nm, "; ".join(bc.why[:2]) or "unknown source"))
             if problems and site in ledger:
                 cls, reason = ledger[site]
+                if cls.endswith(":quoted"):
+                    bad_q = quoted_bounds_problem(P, fn, bounds)
+                    if bad_q:
+                        rep.viol(rule, site, where, "the slice that strips the quotes is no longer `[1 .. len() - 1]` (%s): the grammar fact only justifies "
+                                 "those two byte offsets" % bad_q)
+                        continue
                 rep.ok(rule, site, where, "ledger %s: %s" % (cls, reason))
                 rep.trusted.add("ledger/panic_sites.tsv: " + site)
             elif problems:
